@@ -168,6 +168,14 @@ def correspondence(ctx):
         {'src': 'import helper\nimport helper\ndef f(a):\n    return helper.double(a) + helper.x\n', 'inputs': [], 'calls': [['f', ['3']]], 'files': helper},
         {'src': 'import helper as h\nvalue = h.double(h.x)\n1 / 0\n', 'inputs': [], 'calls': [], 'files': helper},
     ]
+    # submodules of a package that is already imported; the same input queue built in several steps
+    fixed += [
+        {'src': 'import logging\nfrom logging import handlers\nprint(handlers.__name__)\n', 'inputs': [], 'calls': []},
+        {'src': 'import email\ndef f():\n    from email import utils\n    return utils.__name__\nprint(f())\n', 'inputs': [], 'calls': [['f', []]]},
+        {'src': 'import json\nfrom json import decoder, encoder\nprint(decoder.__name__, encoder.__name__)\nimport xml\nfrom xml import dom\nprint(dom.__name__)\n', 'inputs': [], 'calls': []},
+        {'src': 'import collections\nfrom collections import abc\nprint(abc.__name__)\nimport importlib\nfrom importlib import util\nprint(util.__name__)\n', 'inputs': [], 'calls': []},
+    ] + [{'src': 'a = input("Q>")\nb = int(input("Q>"))\nc = int(input("Q>"))\nprint(a, 10 // (b - c))\n', 'inputs': ins, 'calls': [], 'input_mode': mode}
+         for mode in ('queue', 'set+queue', 'set-keep') for ins in (['Ada', '3', '4'], ['Ada', '4', '4'], ['x', '7'])]
     fixed += multi
     # every fixed program also with the time limit switched on (executed in a worker thread)
     fixed += [dict(p, threaded=True) for p in fixed]
@@ -179,7 +187,8 @@ def correspondence(ctx):
         for f, n in funcs[:2]:
             calls.append([f, [str(rng.choice([0, 1, 5, -2])) for _ in range(n)]] +
                          ([[str(rng.randrange(9)) for _ in range(rng.randrange(0, 3))]] if rng.random() < 0.3 else []))
-        progs.append({'src': src, 'inputs': inputs + ['1', '2'], 'calls': calls, 'threaded': rng.random() < 0.25})
+        progs.append({'src': src, 'inputs': inputs + ['1', '2'], 'calls': calls, 'threaded': rng.random() < 0.25,
+                      'input_mode': rng.choice(['set', 'set', 'queue', 'set+queue', 'set-keep'])})
     res = vlib.run_impl('c06_impl.py', {'programs': progs}, timeout=2400)
     for p, r in zip(progs, res):
         kind = r['plain'].get('outcome', {}).get('kind')
